@@ -1,6 +1,7 @@
 package main
 
 import (
+	"encoding/json"
 	"fmt"
 	"math"
 	"reflect"
@@ -24,6 +25,66 @@ type c04Case struct {
 	Via        string `json:"via"` // "new" | "reconfigure-zero" | "reconfigure-configured" | "reconfigure-same-origins"
 	// Shape 1: the lists are windows of one backing array with spare capacity and unused lists are empty but non-nil
 	Shape int `json:"slice_shape,omitempty"`
+	// After: the process has just started and has validated these configurations, in this order, before this one
+	// (see "fresh processes" in main.go)
+	After []c04Case `json:"earlier_in_a_fresh_process,omitempty"`
+}
+
+// c04InFresh judges a case that comes with a process history: history and case go to a freshly started process.
+func c04InFresh(prop string, k c04Case) *vlib.Failure {
+	seq := append(append([]c04Case(nil), k.After...), k)
+	seq[len(seq)-1].After = nil
+	if d, bad := inFreshProcess(prop, seq)[len(seq)-1]; bad {
+		return vlib.Failf("%s", afterNote(len(k.After), d))
+	}
+	return nil
+}
+
+// c04Battery: every atom of every table alone in its list (the other lists minimal and valid), through NewMiddleware.
+func c04Battery() []c04Case {
+	var out []c04Case
+	for i := range c04OA {
+		out = append(out, c04Make(ref.Switches{}, []int{i}, nil, nil, nil, 0, 0, "new"))
+	}
+	for i := range c04MA {
+		out = append(out, c04Make(ref.Switches{}, []int{0}, []int{i}, nil, nil, 0, 0, "new"))
+	}
+	for i := range c04QA {
+		out = append(out, c04Make(ref.Switches{}, []int{0}, nil, []int{i}, nil, 0, 0, "new"))
+	}
+	for i := range c04RA {
+		out = append(out, c04Make(ref.Switches{}, []int{0}, nil, nil, []int{i}, 0, 0, "new"))
+	}
+	return out
+}
+
+// c04FreshProcessPass: for every case of the battery as the first validation of a process, the whole battery
+// afterwards in that process. A failure is reduced to (first, failing case) if that pair fails on its own in
+// another fresh process, and is otherwise kept with its whole history.
+func c04FreshProcessPass(c *vlib.Ctx, ck *Checker[c04Case], prop string) {
+	bat := c04Battery()
+	firsts := bat
+	c.ParRange(int64(len(firsts)), 1, prop+" fresh processes", func(i int64) {
+		seq := append([]c04Case{firsts[i]}, bat...)
+		c.States.Add(1)
+		c.Transitions.Add(int64(len(seq)))
+		c.Evaluations.Add(int64(len(seq)))
+		fails := inFreshProcess(prop, seq)
+		for j := 1; j < len(seq); j++ {
+			d, bad := fails[j]
+			if !bad {
+				continue
+			}
+			k := seq[j]
+			k.After = []c04Case{firsts[i]}
+			if ck.Judge(k) == nil {
+				k.After = append([]c04Case(nil), seq[:j]...)
+			}
+			ck.Report(k, vlib.Failf("%s", afterNote(len(k.After), d)))
+			break
+		}
+	})
+	c.Set("fresh_process_histories", map[string]int{"first_validations": len(firsts), "validations_afterwards_each": len(bat)})
 }
 
 var (
@@ -73,6 +134,28 @@ func c04Make(sw ref.Switches, o, m, q, r []int, maxAge, status int, via string) 
 
 // c04Run calls the constructor named by Via.
 func c04Run(k c04Case) (m *cors.Middleware, err error, f *vlib.Failure) {
+	// a witness that went through JSON (replay file, fresh-process child) cannot carry bytes that are not UTF-8; the
+	// indices can, so the values are restored from the atom tables
+	for i, x := range k.O {
+		if i < len(k.Cfg.Origins) && k.Cfg.Origins[i] != c04OA[x].Value {
+			k.Cfg.Origins[i] = c04OA[x].Value
+		}
+	}
+	for i, x := range k.M {
+		if i < len(k.Cfg.Methods) && k.Cfg.Methods[i] != c04MA[x].Value {
+			k.Cfg.Methods[i] = c04MA[x].Value
+		}
+	}
+	for i, x := range k.Q {
+		if i < len(k.Cfg.RequestHeaders) && k.Cfg.RequestHeaders[i] != c04QA[x].Value {
+			k.Cfg.RequestHeaders[i] = c04QA[x].Value
+		}
+	}
+	for i, x := range k.R {
+		if i < len(k.Cfg.ResponseHeaders) && k.Cfg.ResponseHeaders[i] != c04RA[x].Value {
+			k.Cfg.ResponseHeaders[i] = c04RA[x].Value
+		}
+	}
 	cfg := k.Cfg.Config()
 	if k.Shape == 1 {
 		cfg = k.Cfg.ConfigAlt()
@@ -167,6 +250,9 @@ func c04Run(k c04Case) (m *cors.Middleware, err error, f *vlib.Failure) {
 }
 
 func c04Judge(k c04Case) *vlib.Failure {
+	if len(k.After) > 0 {
+		return c04InFresh("C04", k)
+	}
 	want := ref.Validate(c04Atom(k))
 	_, err, f := c04Run(k)
 	if f != nil {
@@ -240,6 +326,9 @@ var c05OtherInvalid = cors.Config{Origins: []string{"https://other.invalid/path"
 	ResponseHeaders: []string{"Set-Cookie2", "*"}, MaxAgeInSeconds: -77, ExtraConfig: cors.ExtraConfig{PreflightSuccessStatus: 777, PrivateNetworkAccess: true, PrivateNetworkAccessInNoCORSModeOnly: true}}
 
 func c05Judge(k c04Case) *vlib.Failure {
+	if len(k.After) > 0 {
+		return c04InFresh("C05", k)
+	}
 	want := ref.Validate(c04Atom(k))
 	_, err, f := c04Run(k)
 	if f != nil {
@@ -328,17 +417,21 @@ func c05Judge(k c04Case) *vlib.Failure {
 
 func c04Test(name string) func(k c04Case) string {
 	return func(k c04Case) string {
+		after := ""
+		for _, a := range k.After {
+			after += "\n\tcors.NewMiddleware(" + a.Cfg.GoLiteral() + ") // earlier in the same process; run this test alone (go test -run), nothing before it"
+		}
 		return fmt.Sprintf(`package cors_test
 
 import ("testing"; "github.com/jub0bs/cors"; "github.com/jub0bs/cors/cfgerrors")
 
 // Violations the documentation promises for this configuration: %+v
-func Test%sReplay(t *testing.T) {
+func Test%sReplay(t *testing.T) {%s
 	_, err := cors.NewMiddleware(%s) // constructor used by the witness: %s
 	t.Logf("err = %%v", err)
 	for e := range cfgerrors.All(err) { t.Logf("  %%T %%+v", e, e) }
 }
-`, ref.Validate(c04Atom(k)), name, k.Cfg.GoLiteral(), k.Via)
+`, ref.Validate(c04Atom(k)), name, after, k.Cfg.GoLiteral(), k.Via)
 	}
 }
 
@@ -547,6 +640,7 @@ func checkC04(c *vlib.Ctx) (string, string) {
 		}
 		ck.Try(k)
 	})
+	c04FreshProcessPass(c, ck, "C04")
 	return levelMC, rule
 }
 
@@ -563,7 +657,21 @@ func checkC05(c *vlib.Ctx) (string, string) {
 		}
 		ck.Try(k)
 	})
+	c04FreshProcessPass(c, ck, "C05")
 	return levelMC, rule
 }
 
-func init() { registry["C04"] = checkC04; registry["C05"] = checkC05 }
+func init() {
+	registry["C04"] = checkC04
+	registry["C05"] = checkC05
+	decode := func(judge func(c04Case) *vlib.Failure) func(json.RawMessage) *vlib.Failure {
+		return func(raw json.RawMessage) *vlib.Failure {
+			var k c04Case
+			if err := json.Unmarshal(raw, &k); err != nil {
+				vlib.HarnessError("fresh-process child: cannot decode case: %v", err)
+			}
+			return judge(k)
+		}
+	}
+	childJudges["C04"], childJudges["C05"] = decode(c04Judge), decode(c05Judge)
+}
